@@ -283,7 +283,7 @@ def run_driver(args, timeout=3600):
     return p.stdout
 
 
-def validate_traces(traces, kf, cfgextra=()):
+def validate_traces(traces, kf, cfgextra=(), noresync=False):
     """TLC trace validation of every trace file (parallel). Returns (reports, nlines, ntraces_ok)."""
     d = scratch()
     try:
@@ -299,7 +299,7 @@ def validate_traces(traces, kf, cfgextra=()):
             sub = tempfile.mkdtemp(dir=d)
             for f in glob.glob(os.path.join(d, "*.tla")) + [os.path.join(d, "OTRTrace.cfg")]:
                 shutil.copy(f, sub)
-            rc, out = run_tlc(sub, module="OTRTrace", workers=1, timeout=1800, heap="3g", env={"TRACE": tf})
+            rc, out = run_tlc(sub, module="OTRTrace", workers=1, timeout=1800, heap="3g", env=dict({"TRACE": tf}, **({"NORESYNC": "1"} if noresync else {})))
             reports, end, err = [], None, None
             for line in open(out, errors="replace"):
                 if line.startswith('<<"MISMATCH"') or line.startswith('<<"PROP"'):
